@@ -63,7 +63,7 @@ def main():
       ],
       "checks": checks,
       "not_applicable": na,
-      "notes": "Known findings and repaired defects: /verif/known_findings.json. Replay files: /verif/replays/. Exit 2 of a check means infrastructure trouble (build, instrumentation, watchdog, nondeterminism), never a verdict.",
+      "notes": "Known findings and repaired defects: /verif/known_findings.json (four defects repaired by fix: commits, none open). Replay files: /verif/replays/. Exit 2 of a check means infrastructure trouble (build, instrumentation, watchdog, nondeterminism), never a verdict. Seeded breaking changes with demonstrations: /verif/seeded/ (tools/regress.sh); behaviour-preserving changes that must stay silent: /verif/correct/ (tools/regress_correct.sh). Self-tests: bin/check selftest determinism <id>; bin/check <id> --uninstrumented.",
     }
     json.dump(m, open("/verif/MANIFEST.json", "w"), indent=1)
     print("wrote MANIFEST.json:", len(checks), "checks,", len(na), "not applicable")
